@@ -295,7 +295,9 @@ CONTRACTS.update({
         # refused exactly outside the documented range
         'raises': {'ValueError': 'L < 1 or R < 1 or m < 0 or m > L * R'},
         'loops': {
-            0: {'inv': ['card2(G.edgeset) == _it', 'G.lorder == L', 'G.rorder == R',
+            0: {'hints': [  # the pairs still to come differ from the one just inserted (sample positions are distinct, pair numbering injective)
+                            'forall(lambda j: implies(_it < j and j < m, not (_iter[j][0] == _iter[_it][0] and _iter[j][1] == _iter[_it][1])))'],
+                'inv': ['card2(G.edgeset) == _it', 'G.lorder == L', 'G.rorder == R',
                         'forall(lambda j: implies(_it <= j and j < m, not ((_iter[j][0], _iter[j][1]) in G.edgeset)))',
                         'forall(lambda j: implies(0 <= j and j < m, 1 <= _iter[j][0] and _iter[j][0] <= L and 1 <= _iter[j][1] and _iter[j][1] <= R))'] + [c.replace('self.', 'G.') for c in B_INV],
                 'modifies_objects': ['G'], 'modifies_fields': {'G': ['ladj', 'radj', 'edgeset', 'idxl', 'idxr']}},
